@@ -95,18 +95,17 @@ def genFaceCornersR (x : RawR) : RawR :=
   else x
 
 def genCellCornersR (x : RawR) : RawR :=
-  if x.ccElem.length = 0 ∨ x.ccAdj.length = 0 then
+  if x.ccElem.length = 0 ∨ x.ccAdj.length = 0 ∨ x.ccElem.length ≠ ((x.cells.map Row.val).map List.length).sum
+      ∨ x.ccAdj.length ≠ ((x.cells.map Row.val).map List.length).sum then
     if x.ccAdj.length = 0 ∧ x.ccElem.length > 0 then
       { x with ccAdj := [], ccElem := x.ccElem ++ owners (x.cells.map Row.val) }
     else { x with ccElem := (x.cells.map Row.val).flatten, ccAdj := owners (x.cells.map Row.val) }
   else x
 
 def genCellFacesR (x : RawR) : Except String RawR :=
-  if x.cfAdj.length = 0 ∨ x.cfElem.length = 0 then
-    match cellFaceIds ((x.faces.map Row.val).map keyF) (x.cells.map Row.val) with
-    | .ok ids => .ok { x with cfElem := ids.flatten, cfAdj := owners ids }
-    | .error e => .error e
-  else .ok x
+  match cellFaceIds ((x.faces.map Row.val).map keyF) (x.cells.map Row.val) with
+  | .ok ids => .ok { x with cfElem := ids.flatten, cfAdj := owners ids }
+  | .error e => .error e
 
 def completedR (cfg : Cfg) (x : RawR) : RawR :=
   if cfg.ce then completeEdgesR (if cfg.cf then completeFacesR x else x) else (if cfg.cf then completeFacesR x else x)
@@ -206,30 +205,30 @@ theorem forget_genFaceCornersR (x : RawR) : forget (genFaceCornersR x) = genFace
 
 theorem forget_genCellCornersR (x : RawR) : forget (genCellCornersR x) = genCellCorners (forget x) := by
   unfold genCellCornersR genCellCorners
-  by_cases h : x.ccElem.length = 0 ∨ x.ccAdj.length = 0
-  · have h' : (forget x).ccElem.length = 0 ∨ (forget x).ccAdj.length = 0 := h
+  by_cases h : x.ccElem.length = 0 ∨ x.ccAdj.length = 0 ∨ x.ccElem.length ≠ ((x.cells.map Row.val).map List.length).sum
+      ∨ x.ccAdj.length ≠ ((x.cells.map Row.val).map List.length).sum
+  · have h' : (forget x).ccElem.length = 0 ∨ (forget x).ccAdj.length = 0 ∨
+        (forget x).ccElem.length ≠ ((forget x).cells.map List.length).sum ∨
+        (forget x).ccAdj.length ≠ ((forget x).cells.map List.length).sum := h
     rw [if_pos h, if_pos h']
     by_cases g : x.ccAdj.length = 0 ∧ x.ccElem.length > 0
     · have g' : (forget x).ccAdj.length = 0 ∧ (forget x).ccElem.length > 0 := g
       rw [if_pos g, if_pos g']; rfl
     · have g' : ¬ ((forget x).ccAdj.length = 0 ∧ (forget x).ccElem.length > 0) := g
       rw [if_neg g, if_neg g']; rfl
-  · have h' : ¬ ((forget x).ccElem.length = 0 ∨ (forget x).ccAdj.length = 0) := h
+  · have h' : ¬ ((forget x).ccElem.length = 0 ∨ (forget x).ccAdj.length = 0 ∨
+        (forget x).ccElem.length ≠ ((forget x).cells.map List.length).sum ∨
+        (forget x).ccAdj.length ≠ ((forget x).cells.map List.length).sum) := h
     rw [if_neg h, if_neg h']
 
 theorem forget_genCellFacesR (x : RawR) : forgetE (genCellFacesR x) = genCellFaces (forget x) := by
   unfold genCellFacesR genCellFaces
-  by_cases h : x.cfAdj.length = 0 ∨ x.cfElem.length = 0
-  · have h' : (forget x).cfAdj.length = 0 ∨ (forget x).cfElem.length = 0 := h
-    rw [if_pos h, if_pos h']
-    have hk : cellFaceIds ((forget x).faces.map keyF) (forget x).cells
-        = cellFaceIds ((x.faces.map Row.val).map keyF) (x.cells.map Row.val) := rfl
-    rw [hk]
-    cases cellFaceIds ((x.faces.map Row.val).map keyF) (x.cells.map Row.val) with
-    | ok ids => rfl
-    | error e => rfl
-  · have h' : ¬ ((forget x).cfAdj.length = 0 ∨ (forget x).cfElem.length = 0) := h
-    rw [if_neg h, if_neg h']; rfl
+  have hk : cellFaceIds ((forget x).faces.map keyF) (forget x).cells
+      = cellFaceIds ((x.faces.map Row.val).map keyF) (x.cells.map Row.val) := rfl
+  rw [hk]
+  cases cellFaceIds ((x.faces.map Row.val).map keyF) (x.cells.map Row.val) with
+  | ok ids => rfl
+  | error e => rfl
 
 theorem forget_completedR (cfg : Cfg) (x : RawR) : forget (completedR cfg x) = completed cfg (forget x) := by
   unfold completedR completed
@@ -280,10 +279,8 @@ theorem prepareR_no_numpy_rows (cfg : Cfg) (x y : RawR) (h0 : x.prepared = false
     have hfields : z.edges = (stagesR cfg x).edges ∧ z.faces = (stagesR cfg x).faces ∧ z.cells = (stagesR cfg x).cells := by
       unfold genCellFacesR at hz
       split at hz
-      · split at hz
-        · injection hz with hz; subst hz; exact ⟨rfl, rfl, rfl⟩
-        · cases hz
       · injection hz with hz; subst hz; exact ⟨rfl, rfl, rfl⟩
+      · cases hz
     rw [hfields.1, hfields.2.1, hfields.2.2]
     have he : (stagesR cfg x).edges = (prepareEdgesR (prepareVerticesR (completedR cfg x))).edges := by
       unfold stagesR genCellCornersR prepareCellsR genFaceCornersR prepareFacesR
